@@ -249,6 +249,7 @@ type ctx struct {
 	crs   []*creator
 
 	caseOps []string // ops since the last reset (replay for an oracle failure)
+	srcObjs map[string]map[string][]byte // store -> key -> content of objects created from caller-owned sources since the last reset
 	ops     []string
 	impl    []string
 	opBytes int
@@ -291,6 +292,7 @@ func (c *ctx) reset() {
 		os.Exit(3)
 	}
 	c.fs = fs
+	c.srcObjs = map[string]map[string][]byte{}
 	c.mem = objects.NewMem()
 	c.ms = objects.NewMemStore()
 	c.mp = objects.NewMapped(c.ms)
@@ -502,6 +504,65 @@ func streamKey(seed uint64, size int64) string {
 	return hex.EncodeToString(h.Sum(nil))
 }
 
+// readerFunc is a plain function used as a reader.
+type readerFunc func(p []byte) (int, error)
+
+func (f readerFunc) Read(p []byte) (int, error) { return f(p) }
+
+// callerSource builds the kind of source a caller may hand to Create over its
+// own copy of content, and returns what the caller may do to that source once
+// Create has returned: refill/overwrite it.  A store must not keep a reference
+// to memory the caller owns.
+func callerSource(kind string, content []byte) (io.Reader, func(after string), bool) {
+	bs := append([]byte{}, content...)
+	scribble := func(string) {
+		for i := range bs {
+			bs[i] ^= 0xA5
+		}
+	}
+	switch kind {
+	case "buffer":
+		buf := bytes.NewBuffer(bs)
+		return buf, func(after string) {
+			if after == "scribble" {
+				scribble("")
+				return
+			}
+			// reuse for the next record, as a caller with one scratch buffer does
+			buf.Reset()
+			for i := range content {
+				buf.WriteByte(content[i] ^ 0x5A)
+			}
+			buf.WriteString("next record")
+		}, true
+	case "strings":
+		return strings.NewReader(string(content)), func(string) {}, true
+	case "bytesreader":
+		return bytes.NewReader(bs), scribble, true
+	case "limit":
+		return io.LimitReader(bytes.NewReader(bs), int64(len(bs))+10), scribble, true
+	case "func":
+		off := 0
+		return readerFunc(func(p []byte) (int, error) {
+			if off >= len(bs) {
+				return 0, io.EOF
+			}
+			n := copy(p, bs[off:])
+			off += n
+			return n, nil
+		}), scribble, true
+	case "bufferslice":
+		// a buffer handed over after part of it was consumed
+		buf := bytes.NewBuffer(append([]byte("hdr:"), bs...))
+		buf.Next(4)
+		return buf, func(string) {
+			buf.Reset()
+			buf.WriteString("overwritten by the next use of the buffer, longer than before ....")
+		}, true
+	}
+	return nil, nil, false
+}
+
 // create runs one Create call; the result is canonical: "ok <key>", "err <code>", "panic".
 func doCreate(st objects.Objects, r io.Reader) (res string) {
 	defer func() {
@@ -629,7 +690,7 @@ func (c *ctx) runOp(line string) string {
 	all := strings.Fields(line)
 	var ws []string
 	for _, w := range all {
-		if !strings.HasPrefix(w, "sha=") && !strings.HasPrefix(w, "cls=") {
+		if !strings.HasPrefix(w, "sha=") && !strings.HasPrefix(w, "cls=") && !strings.HasPrefix(w, "src=") && !strings.HasPrefix(w, "after=") {
 			ws = append(ws, w)
 		}
 	}
@@ -658,9 +719,40 @@ func (c *ctx) runOp(line string) string {
 		if ws[1] == "fs" {
 			before = c.showListing()
 		}
+		var src io.Reader = &scriptReader{s: script}
+		var afterFn func(string)
+		srcKind, hasSrc := kvGet(all, "src")
+		if hasSrc {
+			content, ending, _ := scriptOutcome(script)
+			var ok bool
+			src, afterFn, ok = callerSource(srcKind, content)
+			if !ok || ending != 'e' {
+				return "bad-op"
+			}
+		}
 		c.j.Risky(line)
-		res := doCreate(st, &scriptReader{s: script})
+		res := doCreate(st, src)
 		c.j.Clear()
+		if hasSrc {
+			// the caller goes on using its buffer; every object created so far must still be exact
+			how, _ := kvGet(all, "after")
+			afterFn(how)
+			content, _, _ := scriptOutcome(script)
+			if strings.HasPrefix(res, "ok ") {
+				if c.srcObjs[ws[1]] == nil {
+					c.srcObjs[ws[1]] = map[string][]byte{}
+				}
+				c.srcObjs[ws[1]][strings.TrimPrefix(res, "ok ")] = append([]byte{}, content...)
+			}
+			for k, want := range c.srcObjs[ws[1]] {
+				if got := doOpen(st, k); got != "ok "+hx.Hex(want) {
+					c.fail("stored-object-aliases-callers-buffer", fmt.Sprintf(
+						"after Create(%s source) returned and the caller reused its %s, Open(%s) in the %s store no longer returns the %d bytes that were created (got %s)",
+						srcKind, srcKind, k, ws[1], len(want), clip(got)))
+					break
+				}
+			}
+		}
 		c.checkCreate(ws[1], script, res)
 		if ws[1] == "fs" {
 			after := c.showListing()
@@ -1603,6 +1695,47 @@ func (g *gen) largeStreams(thorough bool) {
 	}
 }
 
+// callerSources: Create fed with the reader kinds callers really pass
+// (*bytes.Buffer, *strings.Reader, *bytes.Reader, io.LimitReader, a func
+// reader), the source reused/overwritten after Create returned, then open_exact
+// re-verified for every key created so far.
+func (g *gen) callerSources(thorough bool) {
+	rep := g.c.rep
+	sizes := []int{0, 1, 5, 64, 4096, 70000}
+	if thorough {
+		sizes = []int{0, 1, 2, 5, 63, 64, 65, 511, 512, 513, 4095, 4096, 4097, 32768, 70000, 1 << 20}
+	}
+	kinds := []string{"buffer", "bufferslice", "strings", "bytesreader", "limit", "func"}
+	for _, store := range stores {
+		g.emit("reset")
+		var keys []string
+		for _, size := range sizes {
+			for ki, kind := range kinds {
+				content := g.content(size)
+				if size > 0 {
+					content[0] = byte(ki) // distinct objects per kind
+				}
+				after := "refill"
+				if (size+ki)%2 == 1 {
+					after = "scribble"
+				}
+				s := []item{{data: content, flag: 'n'}, {flag: 'e'}}
+				line := withSha("create "+store+" "+showScript(s), s) + " src=" + kind + " after=" + after
+				g.emit(line)
+				keys = append(keys, shaHex(content))
+				rep.Count("caller-source-" + store + "-" + kind)
+				rep.Case(fmt.Sprintf("create %s src=%s size=%d", store, kind, size), true)
+			}
+		}
+		for _, k := range keys {
+			g.emit("open " + store + " " + keyHex(k))
+		}
+		if store == "fs" {
+			g.emit("list fs")
+		}
+	}
+}
+
 func (g *gen) randomScript(content []byte, maxChunk int, failAt int) []item {
 	var s []item
 	off := 0
@@ -2052,6 +2185,7 @@ func main() {
 			timed("fault enumeration (len<=10)", func() { g.faultEnumeration(10) })
 			timed("error values (len<=6)", func() { g.errorValues(6) })
 			timed("file-write faults (RLIMIT_FSIZE)", func() { g.writeFaults(true) })
+			timed("caller-owned sources reused after Create", func() { g.callerSources(true) })
 			timed("large streams (64 MiB +-1, > 128 MiB)", func() { g.largeStreams(true) })
 			timed("big contents", func() { g.bigContents(400) })
 			timed("gated interleavings", func() { g.gated(45000, true) })
@@ -2062,6 +2196,7 @@ func main() {
 			timed("fault enumeration (len<=7)", func() { g.faultEnumeration(7) })
 			timed("error values (len<=3)", func() { g.errorValues(3) })
 			timed("file-write faults (RLIMIT_FSIZE)", func() { g.writeFaults(false) })
+			timed("caller-owned sources reused after Create", func() { g.callerSources(false) })
 			timed("large streams (64 MiB + 1)", func() { g.largeStreams(false) })
 			timed("big contents", func() { g.bigContents(114) })
 			timed("gated interleavings", func() { g.gated(2500, true) })
